@@ -36,6 +36,7 @@ REPLICAS = {
 FLAVOURS = {
     "plain": [],
     "san": ["-fsanitize=address,undefined", "-fno-sanitize-recover=undefined", "-g1"],
+    "cov": ["-fprofile-instr-generate", "-fcoverage-mapping", "-O1", "-DJV_COV"],   # source-coverage build for bin/coverage.sh (blind-spot analysis, not a check)
 }
 
 
@@ -96,6 +97,7 @@ def main():
             shutil.rmtree(fdir, ignore_errors=True)
             for rep, rflags in REPLICAS.items():
                 cxx = CXX
+                if fl == "cov" and rep not in ("A", "B", "C"): continue
                 if "@g++" in rflags:
                     if fl != "plain": continue
                     cxx = "g++"; rflags = [f for f in rflags if f != "@g++"]
